@@ -485,12 +485,13 @@ pub fn eval_unit_name(
 
                 let right_unit = right_unit
                     .into_iter()
-                    .map(|(k, v)| (k, -v))
+                    .map(|(k, v)| (k, v.saturating_neg()))
                     .collect::<BTreeMap<_, _>>();
                 Ok((
                     crate::algorithms::btree_merge(&left_unit, &right_unit, |a, b| {
-                        if a + b != 0 {
-                            Some(a + b)
+                        let sum = a.saturating_add(*b);
+                        if sum != 0 {
+                            Some(sum)
                         } else {
                             None
                         }
@@ -515,7 +516,7 @@ pub fn eval_unit_name(
                     left_unit
                         .into_iter()
                         .filter_map(|(k, v)| {
-                            let v = v * right as isize;
+                            let v = v.saturating_mul(right as isize);
                             if v != 0 {
                                 Some((k, v))
                             } else {
@@ -561,8 +562,9 @@ pub fn eval_unit_name(
                     let (b, bv) = eval_unit_name(ctx, b)?;
                     Ok((
                         crate::algorithms::btree_merge(&acc, &b, |a, b| {
-                            if a + b != 0 {
-                                Some(a + b)
+                            let sum = a.saturating_add(*b);
+                            if sum != 0 {
+                                Some(sum)
                             } else {
                                 None
                             }
